@@ -314,6 +314,52 @@ func extractC14(c *ctxT) {
 	c.facts["C14.recordPredicates"] = preds
 	c.facts["C14.recordWrites"] = recWrites
 
+
+	// ---- how the `To` / `From` strings of the message are parsed, per site -----------------------------------
+	// every call that receives the field itself (m.To, msg.To, …), in source order; whatever is derived from the field
+	// at one site must be derived the same way at every other site, or the sites disagree about who the target is
+	parseSites := func(field string) [][2]string {
+		var out [][2]string
+		for _, site := range []struct{ rel, recv, fn string }{
+			{c14Types, "MsgMigrateAccount", "ValidateBasic"}, {c14Keeper, "Keeper", "MigrateAccount"},
+		} {
+			fd := c.findFunc(site.rel, site.recv, site.fn)
+			if fd == nil || fd.Body == nil {
+				out = append(out, [2]string{site.fn, "?missing"})
+				continue
+			}
+			var calls []string
+			ast.Inspect(fd.Body, func(n ast.Node) bool {
+				ce, ok := n.(*ast.CallExpr)
+				if !ok {
+					return true
+				}
+				for _, a := range ce.Args {
+					if se, ok := a.(*ast.SelectorExpr); ok && se.Sel.Name == field {
+						if _, isIdent := se.X.(*ast.Ident); isIdent {
+							name := c.src(ce.Fun)
+							if i := strings.LastIndex(name, "."); i >= 0 {
+								name = name[i+1:]
+							}
+							if name != "Wrapf" && name != "Wrap" && name != "NewAttribute" && name != "Errorf" {
+								calls = append(calls, name)
+							}
+						}
+					}
+				}
+				return true
+			})
+			out = append(out, [2]string{site.fn, strings.Join(calls, "+")})
+		}
+		return out
+	}
+	toSites, fromSites := parseSites("To"), parseSites("From")
+	sb.WriteString("/-- per site (function), the functions the message's `To` string is handed to, in source order -/\n")
+	sb.WriteString("def toParseSites : List (String × String) := " + pair(toSites) + "\n")
+	sb.WriteString("def fromParseSites : List (String × String) := " + pair(fromSites) + "\n\n")
+	c.facts["C14.toParseSites"] = toSites
+	c.facts["C14.fromParseSites"] = fromSites
+
 	// ---- bank handler: which keeper call yields the amount that is sent, and the SendCoins arguments
 	bankCall, bankSend := "?", "?"
 	if fd := c.findFunc(c14Keeper, "BankMigrate", "Execute"); fd != nil && fd.Body != nil {
